@@ -7,7 +7,7 @@
 //!    (must equal the hand-written structures of `Model/EvalMem.lean`);
 //!  * `LocalPointer::offset_by`, `Allocation::{read, write}`,
 //!    `StackFrame::{read, write}`, `Memory::{read_slice, write, copy,
-//!    push_frame, pop_frame, offset_by, allocate}` — `&mut self` functions
+//!    push_frame, pop_frame, offset_by, allocate, get}` — `&mut self` functions
 //!    become state-passing functions (`Res Self` / `Res (Self × T)`): the
 //!    desugarer below turns `x.push(e)`, `x += e`, `x[a..b].copy_from_slice(v)`
 //!    and calls of `&mut self` methods through `&mut xs[i]` aliases into
@@ -51,6 +51,7 @@ fn lean_ty(t: &str, this: &str) -> Result<String, String> {
         "Self" => this.into(),
         "()" => "Unit".into(),
         "Var" => "Nat".into(),
+        "*mut()" => "RawPtr".into(),
         "[u8]" | "Vec<u8>" | "Box<[u8]>" => "(List UInt8)".into(),
         x if STRUCTS.contains(&x) => x.into(),
         x => {
@@ -133,9 +134,14 @@ impl Desugar<'_> {
                             }
                         }
                     }
-                    // pointer casts are the identity on the model's addresses
+                    // pointer casts are the identity on the model's addresses; the address of a
+                    // place is taken with `raw_of_ref` (the place has to exist)
                     Expr::Cast(c) if matches!(*c.ty, syn::Type::Ptr(_)) => {
-                        *e = (*c.expr).clone();
+                        *e = match &*c.expr {
+                            Expr::Reference(r) => syn::parse_str(&format!("raw_of_ref({})", txt(&r.expr)))
+                                .expect("raw_of_ref parses"),
+                            other => other.clone(),
+                        };
                     }
                     // the one raw access: what a global pointer refers to
                     Expr::Unsafe(u) => {
@@ -460,6 +466,7 @@ fn mem_cx(this: &str) -> Cx {
         ("vec_set", "Vec.set", false),
         ("vec_pop", "Vec.pop", false),
         ("raw_read", "Raw.read", false),
+        ("raw_of_ref", "Raw.of_ref", false),
         ("vec_splice", "Vec.splice", true),
     ] {
         if fallible {
@@ -485,7 +492,10 @@ fn vec_zeros(s: &str) -> String {
     out + rest
 }
 
-const MEM_FNS: [(&str, &str); 12] = [
+const MEM_FNS: [(&str, &str); 15] = [
+    ("Allocation", "get"),
+    ("StackFrame", "get"),
+    ("Memory", "get"),
     ("LocalPointer", "offset_by"),
     ("Allocation", "write"),
     ("Allocation", "read"),
@@ -714,6 +724,31 @@ pub fn evalmem(repo: &Path) -> Result<String, String> {
             return Err("FuncGen::instruction Call arm: argument list is no longer `[return_ptr?] ++ [ctx?] ++ args` in order".into());
         }
         out.push_str("/-- the `Call` arm of `FuncGen::instruction` (checked verbatim): the explicit arguments are pushed in\n    order, after the optional return pointer and context; a CLIF call binds them positionally to the\n    callee's block parameters, which `FuncGen` declares in the order of `ir_signature.parameters`. -/\ndef cg_Call_bindings {α : Type} (params : List Nat) (args : List α) : List (Nat × α) := params.zip args\n\n");
+    }
+
+    // ---- Return / the frame bookkeeping of Call (shape-checked; the frame operations they call are
+    //      the generated `Memory.push_frame` / `Memory.pop_frame`)
+    {
+        let f = find::func(&eval, "eval", None)?;
+        let ms = find::matches_on(&f.block, "instruction");
+        let arm = find::arm_for(&ms[0], "Return")?;
+        let want = "{letval=ret.as_ref().map(|r|eval_operand(&vars,r).clone());ifletSome(StackFrame{id:_,allocations:_,return_address,return_place,})=mem.pop_frame(){ifletSome(val)=val{vars.insert(return_place.unwrap(),val.clone());}program_counter=return_address+1;continue;}else{returnval;}}";
+        if nospace(&txt(&arm.body)) != want {
+            return Err(format!(
+                "Return arm differs from the modelled shape (pop_frame; a popped frame: assign the value to its return_place, continue at return_address + 1; no frame: return the value): {}",
+                txt(&arm.body)
+            ));
+        }
+        let call = find::arm_for(&ms[0], "Call")?;
+        let ct = nospace(&txt(&call.body));
+        if !ct.contains("mem.push_frame(program_counter,to.clone().map(|to|to.0));")
+            || !ct.ends_with("program_counter=block_map[&f.entry_block];continue;}")
+        {
+            return Err("Call arm: no longer `mem.push_frame(program_counter, to.clone().map(|to| to.0))` … `program_counter = block_map[&f.entry_block]; continue;`".into());
+        }
+        out.push_str(
+            "/-- the `Return` arm of `lir::eval` (shape checked verbatim; `Memory.pop_frame` is the generated one):\n    pop a frame; with a frame, hand the value to the frame's `return_place` (`unwrap`: panics when the\n    call expected no value) and continue after the call; without one, `main` returns. -/\ndef eval_Return (dbg : Bool) (mem : Memory) (val_ : Option IrValue) : Res (Memory × Flow) := do\n  let (mem, popped) ← Memory.pop_frame dbg mem\n  match popped with\n  | some fr =>\n    match val_ with\n    | some v =>\n      match fr.return_place with\n      | some place => pure (mem, Flow.resume (fr.return_address + 1) (some (place, v)))\n      | none => Res.panic\n    | none => pure (mem, Flow.resume (fr.return_address + 1) none)\n  | none => pure (mem, Flow.finish val_)\n\n/-- the frame bookkeeping of the `Call` arm (shape checked verbatim): `push_frame(program_counter,\n    to.map(|to| to.0))`, then jump to the callee's entry block. -/\ndef eval_Call_frame (dbg : Bool) (mem : Memory) (program_counter : Nat) (to_ : Option Nat) : Res Memory :=\n  Memory.push_frame dbg mem program_counter to_\n\n",
+        );
     }
 
     // ---- the Switch arm of the code generator
